@@ -169,7 +169,7 @@ CHECKS["C08"] = ("proof",
     "31..33, 47, 48, 63, 64); a changed tx hash / branch element / position bit changes the root unless an explicit SHA-256 collision "
     "exists; update_headers after a reorganisation leaves no cached transaction verified at or above the lowest replaced height. Bounded "
     "(labelled): all 2080 (block size 1..64, index) pairs x ~50 single mutations with real SHA-256; reorg scenarios on a real chain; the "
-    "legacy claim-trie checker. Known findings C08-P1 (duplicated last node), C08-P2 (tip replaced without refusal); C08-P1a fixed.",
+    "legacy claim-trie checker. Known finding C08-P1 (duplicated last node); C08-P1a (position range) and C08-P2 (tip replaced without refusal) were repaired.",
     "SHA-256 uninterpreted (mutation clauses conditional on named no-collision instances); header validity is C07's subject; the network "
     "replies are fully symbolic; completeness for block sizes 18..30, 34..46, 49..62 only bounded.",
     "symbolic execution of the real AST with loop invariant + recursive spec, uninterpreted SHA-256, VCs by z3/cvc5; bounded real-SHA blocks", "3 C08")
